@@ -51,10 +51,13 @@ class H5Group:
         self._group = grp
 
     def create_link(self, target, name):
+        # look at the target first: something that is not an entity is
+        # refused before an existing link of that name is removed
+        h5target = target._h5group.group
         self._create_h5obj()
         if name in self.group:
             del self.group[name]
-        self.group[name] = target._h5group.group
+        self.group[name] = h5target
 
     @classmethod
     def create_from_h5obj(cls, h5obj):
